@@ -182,6 +182,13 @@ class SymbolPrinter(PrettyPrinter):  # type: ignore[misc]
             right=right)
 
     # pylint: disable-next=invalid-name
+    def _print_UndefinedFunction(self, e: Any) -> prettyForm:
+        # the function itself, not applied to arguments, is shown under its display name
+        if isinstance(e, Function):
+            return prettyForm(pretty_symbol(e.display_name))
+        return self._print_FunctionClass(e)
+
+    # pylint: disable-next=invalid-name
     def _print_IndexedSum(self, e: Expr) -> prettyForm:
         return self._print_Function(e, func_name="IndexedSum")
 
